@@ -31,13 +31,15 @@
 (*   to_dict_stringifies_elements    ORSet.to_dict keys entries by str(e)    *)
 (*   store_adopts_remote_node_id     CRDTStore._merge_remote_state installs  *)
 (*        from_dict(remote) for an unknown key, keeping the remote node_id   *)
-(*   gcounter_merge_adds, lww_merge_takes_remote   hypothetical (sensitivity)*)
+(*   gcounter_merge_adds, lww_merge_takes_remote, lww_merge_skips_none_value *)
+(*        hypothetical (sensitivity runs only)                               *)
 EXTENDS Naturals, Integers, Sequences, FiniteSets, TLC
 
 CONSTANTS NR,        \* replicas 1..NR
           Kinds,     \* subset of {"G","PN","LWW","OR"} explored
           Elems,     \* OR-set elements; "#1" stands for the integer 1
-          Vals,      \* LWW values
+          Vals,      \* LWW values; "none" stands for Python None (also the value of an
+                     \* unwritten register), "@0" "@empty" "@False" for 0, "", False
           MaxSteps,  \* bound on the number of actions
           MaxInc,    \* increments 1..MaxInc
           MaxPhys,   \* LWW write timestamps <<0..MaxPhys, 0..MaxLog, replica>>
@@ -72,8 +74,10 @@ TsLess(a, b) == \/ a[1] < b[1]
 MergeCnt(a, b) == IF "gcounter_merge_adds" \in Dev THEN [k \in R |-> a[k] + b[k]]
                   ELSE [k \in R |-> Max2(a[k], b[k])]
 
+\* a register value may be any Python value, also None ("none") and other falsy ones; only a
+\* register without timestamp counts as never written
 MergeReg(a, b) ==
-    IF b = <<>> THEN a
+    IF b = <<>> \/ ("lww_merge_skips_none_value" \in Dev /\ b[1] = "none") THEN a
     ELSE IF "lww_merge_takes_remote" \in Dev THEN b
     ELSE IF a = <<>> \/ TsLess(a[2], b[2]) THEN b ELSE a
 
